@@ -13,7 +13,7 @@ Oracle / CockroachDB: text level (statement lexes and parses with the personalit
 the emulator, selects R[offset:offset+limit] of the unpaged statement's rows R).
 """
 import re, collections
-from vlib import qgen, sqlemu, c02_lib, c02_gen
+from vlib import qgen, sqlemu, c02_lib, c02_gen, c02_kj
 from checks import c01
 
 ID = 'C02'
@@ -26,7 +26,13 @@ RULE = ('A case is (data set, query, optional page): data = the C01 data sets (0
         'indexing with constant bounds -3..4, upper/lower/strip, strip/lstrip/rstrip(chars), str(int), startswith/endswith/in '
         'with non-constant patterns, tuple comparisons, tuple [NOT] IN subquery incl. subqueries selecting the nullable column with '
         'colliding values; also as (pk, string expression) projections), optionally '
-        'ordered by primary key (asc/desc) and cut by [a:b], [a:], [:b], .limit(), .page(). Each case runs on '
+        'ordered by primary key (asc/desc) and cut by [a:b], [a:], [:b], .limit(), .page(), or built as a CHAIN of Query methods '
+        '(select(x for x in E) then order_by / filter / where lambdas in several orders). Two further worlds (vlib/c02_kj.py, own '
+        'plain-Python references): K = an entity with a composite primary key counted / summed / selected DISTINCT / tested with '
+        '[NOT] IN subqueries through a to-one attribute, a many-to-many attribute, a one-to-many collection and as the loop variable '
+        '(18 query templates x generated data with repeated references and a Required/Optional option); J = a Json attribute with '
+        'flat documents (flag in true/false/0/1/empty and non-empty strings, lists, dicts) queried by chains of 1-3 order_by / '
+        'filter / where lambdas (JSON truthiness, negation, comparisons, and/or) after select(...) or Entity.select(). Each case runs on '
         'live SQLite, emulated PostgreSQL and emulated MySQL (+ Oracle / CockroachDB at text level). Non-trivial = pony accepted '
         'the query on SQLite and on at least one of PostgreSQL / MySQL, that dialect was judged, and its SQL text differs from the '
         'SQLite text in more than identifier quoting, identifier case and placeholder style (i.e. a dialect-overridden builder '
@@ -60,13 +66,30 @@ def make_env(classes):
     return env
 
 
-def run_query(world, text, params, page):
+def chain_source(q, chain):
+    """the query  x for x in E if cond  built as select(x for x in E).order_by(lambda x: ...).filter(lambda x: cond) ..."""
+    var, src = q['loops'][0]
+    text = 'select(%s for %s in %s)' % (var, var, src[1])
+    orders = iter(['%s.id' % var, '-%s.id' % var, '%s.id' % var])
+    for step in chain:
+        if step == 'order':
+            text += '.order_by(lambda %s: %s)' % (var, next(orders))
+        else:
+            text += '.%s(lambda %s: %s)' % (step, var, qgen.render(q['cond']))
+    return text + '[:]'
+
+
+def run_query(world, text, params, page, chain_src=None):
     """-> ('ok', rows) | ('rejected', exception name) | ('emu', (kind, detail)) | ('error', 'Name: message')"""
     from pony.orm import db_session, select, desc      # `desc` is resolved from this frame by order_by('desc(x.id)')
     genv = make_env(world.classes)
     genv.update(params)
     try:
         with db_session:
+            if chain_src is not None:
+                genv['select'] = select
+                res = eval(compile(chain_src, '<query>', 'eval'), genv)
+                return 'ok', [c01.norm_row(r) for r in res]
             qobj = select(text, genv, dict(params))
             if page is not None:
                 qobj = qobj.order_by('desc(x.id)' if page['desc'] else 'x.id')
@@ -138,7 +161,152 @@ def pinned(q, optional):
     return pk_vars >= set(v for v, src in q['loops'])
 
 
+def run_family_query(world, case):
+    """K / J worlds: -> ('ok', rows) | ('rejected', name) | ('emu', (kind, detail)) | ('error', text)"""
+    import pony.orm as orm
+    src, params = c02_kj.query_source(case)
+    env = {n: getattr(orm, n) for n in ('select', 'count', 'sum', 'min', 'max', 'desc')}
+    env.update(world.classes)
+    genv = dict(env)
+    genv.update(params)
+    genv['ENV'] = env
+    genv['PARAMS'] = dict(params)
+    try:
+        with orm.db_session:
+            res = eval(compile(src, '<query>', 'eval'), genv)
+            rows = [c01.norm_row(r) for r in res]
+        return 'ok', rows
+    except c02_lib.EmuFailure as e:
+        return 'emu', (e.kind, e.detail)
+    except Exception as e:
+        name = type(e).__name__
+        if name in REJECT or isinstance(e, (TypeError, NotImplementedError)):
+            return 'rejected', name
+        return 'error', '%s: %s' % (name, str(e)[:300])
+
+
+def judge_bag(rows, required, optional):
+    cnt, req, opt = collections.Counter(rows), collections.Counter(required), collections.Counter(optional)
+    missing = req - cnt
+    extra = (cnt - req) - opt
+    if missing or extra:
+        return 'rows differ: missing %r, unexpected %r' % (sorted(missing.elements(), key=repr)[:5], sorted(extra.elements(), key=repr)[:5])
+    return None
+
+
+def trust_control(ctx, world, stmts, tables, classes):
+    """emulator(sqlite personality) == live SQLite on every SELECT the provider executed; a disagreement is a harness error"""
+    for sql, args in stmts:
+        real = world.raw(sql, args)
+        try:
+            cols, emu = sqlemu.Engine('sqlite', tables).run(sql, args, raw=True)
+        except sqlemu.Unmodelled as e:
+            ctx.count('sqlite_emulator_unmodelled')
+            continue
+        except (sqlemu.SqlSyntaxError, sqlemu.ServerError) as e:
+            raise EmulatorMismatch('the emulator (sqlite personality) cannot run a statement live SQLite executed: %s\n%s\nargs %r'
+                                   % (e, sql, args))
+        same = (emu == real) if re.search(r'\bORDER BY\b', sql) else (collections.Counter(emu) == collections.Counter(real))
+        if not same:
+            raise EmulatorMismatch('the emulator (sqlite personality) disagrees with live SQLite\n%s\nargs %r\nemulator %r\n'
+                                   'sqlite   %r\ntables %r' % (sql, args, emu, real, tables))
+        ctx.extra['traces_validated_against_impl'] = ctx.extra.get('traces_validated_against_impl', 0) + 1
+        classes.append('sqlite_emulator_agrees')
+
+
+def check_family_case(ctx, case):
+    """the K (composite keys) and J (Json attribute, chained query methods) worlds of vlib/c02_kj.py"""
+    fam, data = case['family'], case['data']
+    src, params = c02_kj.query_source(case)
+    desc = '%s  params %r' % (src, params)
+    classes = ['kind:' + fam]
+    if fam == 'K':
+        classes.append('K:' + case['query']['template'])
+    else:
+        classes.append('J:chain:' + '-'.join(st[0] for st in case['query']['steps']))
+    key = [fam, src, sorted(params.items()), data]
+    ref = c02_kj.reference(case)
+    lw = c02_kj.live_world(fam, data['opts'])
+    lw.reset(data)
+    status, rows_sqlite = run_family_query(lw, case)
+    stmts = list(lw.log)
+    if status != 'ok':
+        if status == 'rejected':
+            ctx.rejected += 1
+            classes.append('rejected:sqlite:' + rows_sqlite)
+            ctx.case(key=key, nontrivial=False, classes=classes)
+            return
+        ctx.fail(dict(case, dialect='sqlite', kind='error'), 'sqlite: %s raises %s' % (desc, rows_sqlite))
+        ctx.case(key=key, nontrivial=False, classes=classes)
+        return
+    classes.append('accepted')
+    trust_control(ctx, lw, stmts, c02_kj.tables(fam, lw.classes, data, 'sqlite'), classes)
+    sqlite_sql = stmts[0][0] if stmts else ''
+    results = {'sqlite': rows_sqlite}
+    sent, differs = {'sqlite': sqlite_sql}, {}
+    for d in DIALECTS:
+        w = c02_kj.dialect_world(fam, d, data['opts'])
+        w.reset(data)
+        st, rows = run_family_query(w, case)
+        rec = w.pool.statements[0] if w.pool.statements else None
+        if st == 'rejected' and rec is not None and rec['rows'] is not None:
+            st, rows = 'error', '%s raised while the rows the server returned were converted' % rows
+        if rec is not None:
+            sent[d] = rec['sent'] or rec['sql']
+            differs[d] = norm_sql(rec['sql']) != norm_sql(sqlite_sql)
+        if st == 'ok':
+            results[d] = rows
+            classes.append('judged:' + d)
+        elif st == 'rejected':
+            ctx.rejected += 1
+            classes.append('rejected:%s:%s' % (d, rows))
+        elif st == 'emu':
+            kind, detail = rows
+            if kind == 'collation':
+                classes.append('filtered:mysql_collation_sensitive')
+            elif kind == 'unmodelled':
+                ctx.inconclusive += 1
+                classes.append('unmodelled:' + d)
+                ctx.count('unmodelled:%s:%s' % (d, re.sub(r'[^A-Za-z_():/%| ]+', '', detail.split(': ', 1)[-1])[:40]))
+            else:
+                ctx.fail(dict(case, dialect=d, kind=kind),
+                         '%s: pony accepted  %s  but the %s: %s\n%s'
+                         % (d, desc, 'statement is not valid SQL of the dialect' if kind == 'syntax' else 'server refuses the statement',
+                            detail, sent.get(d)))
+        else:
+            ctx.fail(dict(case, dialect=d, kind='error'), '%s: %s runs on SQLite but raises on %s: %s\n%s' % (d, desc, d, rows, sent.get(d)))
+    if ref is None:
+        ctx.inconclusive += 1
+        classes.append('unspecified_rows')
+    else:
+        required, optional = ref
+        bad = set()
+        for d, rows in results.items():
+            msg = judge_bag(rows, required, optional)
+            if msg:
+                bad.add(d)
+                ctx.fail(dict(case, dialect=d, kind='rows'),
+                         '%s: %s: %s\n  sqlite returned %r\n  %s returned %r\n  reference %r (optional %r)\n%s'
+                         % (d, desc, msg, rows_sqlite[:8], d, rows[:8], required[:8], optional[:4], sent.get(d)))
+        if not optional and 'sqlite' not in bad:
+            for d in DIALECTS:
+                if d in results and d not in bad and collections.Counter(results[d]) != collections.Counter(rows_sqlite):
+                    ctx.fail(dict(case, dialect=d, kind='rows'), '%s: %s returns %r on SQLite but %r on %s\n%s'
+                             % (d, desc, rows_sqlite[:8], results[d][:8], d, sent.get(d)))
+    for d in DIALECTS:
+        if differs.get(d):
+            classes.append('text_differs:' + d)
+    nt = ref is not None and any(d in results and differs.get(d) for d in DIALECTS)
+    sample = None
+    if nt:
+        sample = {'family': fam, 'query': src, 'params': params, 'result_size': len(rows_sqlite),
+                  'sql': {d: (sent.get(d) or '').split('\n') for d in ('sqlite',) + DIALECTS if d == 'sqlite' or differs.get(d)}}
+    ctx.case(key=key, nontrivial=nt, classes=classes, sample=sample)
+
+
 def check_case(ctx, case):
+    if case.get('family'):
+        return check_family_case(ctx, case)
     data, nrepl = c02_gen.restrict_data(case['data'])
     q = dict(case['query'])
     tree, nrepl2 = c02_gen.restrict_tree([q.get('cond'), q['result']])
@@ -151,14 +319,19 @@ def check_case(ctx, case):
     mirror = c02_lib.extend_mirror(qgen.Mirror(data))
     required, optional, unspecified = qgen.ref_rows(q, mirror)
     feats = qgen.features([q.get('cond'), q['result']])
-    desc = '%s  params %r%s' % (text, params, '  page %r' % (page,) if page else '')
-    classes = ['kind:' + ('paged' if page else 'extra' if feats & EXTRA_FEATS or uses_bool(q) else 'plain')]
+    chain = case.get('chain')
+    chain_src = chain_source(q, chain) if chain else None
+    desc = '%s  params %r%s' % (chain_src or text, params, '  page %r' % (page,) if page else '')
+    classes = ['kind:' + ('chain' if chain else 'paged' if page else 'extra' if feats & EXTRA_FEATS or uses_bool(q) else 'plain')]
     fail_case = {'data': case['data'], 'query': case['query'], 'page': page}
+    if chain:
+        fail_case['chain'] = chain
+        classes.append('chain:' + '-'.join(chain))
 
     # ---- (1) live SQLite
     lw = c02_lib.LiveWorld.get(data['opts'])
     lw.reset(data)
-    status, rows_sqlite = run_query(lw, text, params, page)
+    status, rows_sqlite = run_query(lw, text, params, page, chain_src)
     stmts = list(lw.log)
     if status != 'ok':
         if status == 'rejected':
@@ -166,7 +339,7 @@ def check_case(ctx, case):
             classes.append('rejected:sqlite:' + rows_sqlite)
         else:
             classes.append('live_sqlite_error')        # C01's business (e.g. OperationalError for an m2m aggregate), not judged here
-        ctx.case(key=[text, sorted(params.items()), page, data], nontrivial=False, classes=classes)
+        ctx.case(key=[text, sorted(params.items()), page, chain, data], nontrivial=False, classes=classes)
         return
     classes.append('accepted')
 
@@ -197,8 +370,10 @@ def check_case(ctx, case):
     for d in DIALECTS:
         w = c02_lib.DialectWorld.get(d, data['opts'])
         w.reset(data)
-        st, rows = run_query(w, text, params, page)
+        st, rows = run_query(w, text, params, page, chain_src)
         rec = w.pool.statements[0] if w.pool.statements else None
+        if st == 'rejected' and rec is not None and rec['rows'] is not None:
+            st, rows = 'error', '%s raised while the rows the server returned were converted' % rows
         if rec is not None:
             sent[d] = rec['sent'] or rec['sql']
             differs[d] = norm_sql(rec['sql']) != norm_sql(sqlite_sql)
@@ -270,7 +445,8 @@ def check_case(ctx, case):
                                  % (d, desc, rows_sqlite[:8], results[d][:8], d, sent.get(d)))
 
     # ---- (4) Oracle / CockroachDB, text level
-    text_level(ctx, fail_case, data, text, params, page, desc, classes)
+    if not chain:
+        text_level(ctx, fail_case, data, text, params, page, desc, classes)
 
     nt = any(d in results and differs.get(d) for d in DIALECTS) and not unspecified
     for d in DIALECTS:
@@ -285,7 +461,7 @@ def check_case(ctx, case):
         sample = {'query': text, 'params': params, 'page': page, 'rows_A': len(data['A']), 'rows_B': len(data['B']),
                   'result_size': len(rows_sqlite),
                   'sql': {d: (sent.get(d) or '').split('\n') for d in DIALECTS if differs.get(d)}}
-    ctx.case(key=[text, sorted(params.items()), page, data], nontrivial=nt, classes=classes, sample=sample)
+    ctx.case(key=[text, sorted(params.items()), page, chain, data], nontrivial=nt, classes=classes, sample=sample)
 
 
 EXTRA_FEATS = {'stripc', 'tostr', 'tcmp', 'tsubin', 'boolfn'}
@@ -352,9 +528,12 @@ def text_level(ctx, fail_case, data, text, params, page, desc, classes):
 
 # ---------------------------------------------------------------------------------------------------------------------
 def run(ctx):
+    from hypothesis import strategies as st
+
     def t(case):
         check_case(ctx, case)
-    ctx.run_test(t, dict(case=c02_gen.cases()), max_examples=ctx.scale(900, 4500), name='C02')
+    both = st.integers(0, 7).flatmap(lambda i: c02_kj.cases() if i < 2 else c02_gen.cases())
+    ctx.run_test(t, dict(case=both), max_examples=ctx.scale(900, 4500), name='C02')
 
 
 def replay(case):
@@ -454,7 +633,16 @@ def _sqlite_tuple_le_ge_expansion(case, message):
     return case.get('dialect') == 'sqlite' and any(n and n[0] == 'tcmp' and n[1] in ('<=', '>=') for n in _nodes(case))
 
 
+def _sqlite_composite_m2m_count_is_per_row(case, message):
+    """SQLite: count() of a many-to-many collection whose items have a composite key is rendered as a correlated per-row subquery
+    (SELECT COUNT(*) FROM (SELECT DISTINCT ...)) instead of an aggregate of the query: wrong as soon as the query is not grouped by
+    the owner's key (PostgreSQL / MySQL: COUNT(DISTINCT ...) over the LEFT JOIN)"""
+    return (case.get('family') == 'K' and case.get('dialect') == 'sqlite'
+            and (case.get('query') or {}).get('template') in ('count_rooms', 'g_count_rooms'))
+
+
 EXCLUSIONS = {
+    'sqlite_composite_m2m_count_is_per_row': _sqlite_composite_m2m_count_is_per_row,
     'pg_negative_substring_length': _pg_negative_substring_length,
     'mysql_generic_negative_start_slice': _mysql_generic_negative_start_slice,
     'sqlite_tuple_le_ge_expansion': _sqlite_tuple_le_ge_expansion,
@@ -465,8 +653,9 @@ EXCLUSIONS = {
 }
 
 MANIFEST = {
-    'text': 'Every generated (data set, query, optional ORDER BY pk + LIMIT/OFFSET) of the C01 space plus dialect-sensitive families '
-            '(booleans, // and %, strip(chars), str(), tuple comparisons, tuple IN subquery) is run live on SQLite and through '
+    'text': 'Every generated (data set, query, optional ORDER BY pk + LIMIT/OFFSET or method chain) of the C01 space plus '
+            'dialect-sensitive families (booleans, // and %, strip(chars), str(), tuple comparisons, tuple [NOT] IN subquery over '
+            'nullable columns, composite-key aggregates, JSON items in chained order_by/filter/where) is run live on SQLite and through '
             "pony's real PostgreSQL and MySQL providers over a fake DB-API driver that formats arguments like psycopg2/MySQLdb and "
             'evaluates the statement with a dialect emulator (tokenizer + Pratt parser + three-valued executor; per-dialect tables '
             'transcribed from the PostgreSQL 16 and MariaDB 10.11/MySQL 8.0 manuals). All row multisets must satisfy the C01 validity '
@@ -476,8 +665,9 @@ MANIFEST = {
     'note': 'No PostgreSQL/MySQL/Oracle server exists in the sandbox: those dialects are an emulation whose relational core is '
             'cross-validated against live SQLite on every case, while the per-dialect operator/function tables are trusted text; '
             'anything outside the tables is counted as inconclusive, never judged. Collation-dependent MySQL outcomes and non-ASCII '
-            'text are filtered (counted). JSON, array and date/time operators, AVG, GROUP_CONCAT, composite keys and server type '
-            'checking beyond boolean-vs-integer are not covered; Oracle/CockroachDB are text level only.',
+            'text are filtered (counted). JSON beyond flat key access / truthiness / scalar comparison, array and date/time operators, '
+            'AVG, GROUP_CONCAT and server type checking beyond boolean-vs-integer are not covered; Oracle/CockroachDB are text '
+            'level only.',
     'technique': 'differential property-based testing across dialects (hypothesis) with a reference evaluator and a cross-validated '
                  'SQL dialect emulator as the missing servers',
 }
